@@ -7,7 +7,8 @@ from vf.evidence import Outcome
 from vf.world import World, Violation, settle, advance
 from vf.simnet import SimNet, Server
 from vf.peers.thrift_serial import ThriftSerialPeer
-from vf.fixtures.richsvc import Rich, RichChild, RichChild2
+from vf.gen import weighted
+from vf.fixtures.richsvc import Rich, RichChild, RichChild2, RichGrandChild
 
 from thrift.Thrift import TApplicationException
 from scales.constants import SinkProperties
@@ -47,6 +48,9 @@ I32 = st.integers(-2 ** 31, 2 ** 31 - 1)
 I64 = st.integers(-2 ** 63, 2 ** 63 - 1)
 TEXT = st.one_of(st.text(max_size=12), st.just(''), st.text(alphabet='aé€\U0001F600z', max_size=6), st.text(max_size=12),
                  st.text(alphabet='abcdefghij é', min_size=200, max_size=700))
+# now and then a long text (16 kB, 64 kB, 1 MB: beyond one read buffer, one segment, a cautious frame limit), described compactly
+BIGTEXT = weighted((9, TEXT), (1, st.fixed_dictionaries({
+    'rep': st.text(alphabet='ab€', min_size=1, max_size=4), 'n': st.sampled_from([16362, 16363, 16384, 20000, 70000, 1100000])})))
 DBL = st.floats(allow_nan=False, allow_infinity=False)
 BIN = st.one_of(st.binary(max_size=40), st.binary(min_size=250, max_size=2000)).map(lambda b: b.hex())
 
@@ -61,10 +65,10 @@ def _item():
   })
 
 
-def _call(child=False):
+def _call(child=False, grand=False):
   rich = st.one_of(
       st.fixed_dictionaries({'m': st.just('ping'), 'args': st.just([]), 'outcome': st.sampled_from(['void', 'void', 'appexc'])}),
-      st.fixed_dictionaries({'m': st.just('echo'), 'args': st.tuples(TEXT).map(list), 'outcome': st.sampled_from(['value', 'value', 'appexc']), 'ret': TEXT}),
+      st.fixed_dictionaries({'m': st.just('echo'), 'args': st.tuples(BIGTEXT).map(list), 'outcome': st.sampled_from(['value', 'value', 'appexc']), 'ret': BIGTEXT}),
       st.fixed_dictionaries({'m': st.just('add'), 'args': st.tuples(I32, I64).map(list), 'outcome': st.just('value'), 'ret': st.one_of(I64, st.just(0))}),
       st.fixed_dictionaries({'m': st.just('put'), 'args': st.tuples(_item()).map(list), 'outcome': st.just('value'), 'ret': _item()}),
       st.fixed_dictionaries({'m': st.just('risky'), 'args': st.tuples(TEXT).map(list), 'outcome': st.sampled_from(['value', 'e1', 'e2', 'appexc']),
@@ -81,6 +85,10 @@ def _call(child=False):
         rich, rich,
         st.fixed_dictionaries({'m': st.just('extra'), 'args': st.tuples(TEXT).map(list), 'outcome': st.sampled_from(['value', 'value', 'appexc']), 'ret': TEXT}),
         st.fixed_dictionaries({'m': st.just('poke'), 'args': st.just([]), 'outcome': st.sampled_from(['void', 'void', 'appexc'])}))
+  if grand:
+    rich = st.one_of(
+        rich, rich,
+        st.fixed_dictionaries({'m': st.just('deep'), 'args': st.tuples(TEXT).map(list), 'outcome': st.sampled_from(['value', 'value', 'appexc']), 'ret': TEXT}))
   return rich.flatmap(lambda c: st.booleans().map(lambda kw: dict(c, kw=kw)))
 
 
@@ -112,13 +120,14 @@ def strategy(tier):
       st.fixed_dictionaries(dict(env, svc=st.just('rich'), calls=st.lists(_call(), min_size=1, max_size=5))),
       st.fixed_dictionaries(dict(env, svc=st.just('rich'), calls=st.lists(_call(), min_size=1, max_size=5))),
       st.fixed_dictionaries(dict(env, svc=st.just('richchild'), calls=st.lists(_call(True), min_size=1, max_size=5))),
+      st.fixed_dictionaries(dict(env, svc=st.just('richgrandchild'), calls=st.lists(_call(True, True), min_size=1, max_size=5))),
       st.fixed_dictionaries(dict(env, svc=st.just('richchild2'), calls=st.lists(_call2(), min_size=1, max_size=4))),
       st.fixed_dictionaries(dict(env, svc=st.just('hello'), calls=st.lists(hello_call, min_size=1, max_size=4))),
   )
 
 
 ARG_NAMES = {'ping': [], 'echo': ['text'], 'add': ['a', 'b'], 'put': ['item'], 'risky': ['what'], 'guard': ['what'], 'flag': ['v'],
-             'blob': ['data'], 'scale': ['x'], 'names': ['n'], 'hi': ['test_data'], 'extra': ['text'], 'poke': []}
+             'blob': ['data'], 'scale': ['x'], 'names': ['n'], 'hi': ['test_data'], 'extra': ['text'], 'poke': [], 'deep': ['text']}
 
 
 def _to_item(d):
@@ -130,6 +139,8 @@ def _to_item(d):
 
 def _real(m, v):
   """plan value -> python value for method m (argument or return)."""
+  if isinstance(v, dict) and 'rep' in v:
+    return (v['rep'] * (v['n'] // len(v['rep']) + 1))[:v['n']]
   if m == 'put':
     return _to_item(v)
   if m == 'blob':
@@ -187,6 +198,8 @@ def _run_once(plan, chunks):
     iface, pf = Rich.Iface, Rich.Processor
   elif plan['svc'] == 'richchild':
     iface, pf = RichChild.Iface, RichChild.Processor
+  elif plan['svc'] == 'richgrandchild':
+    iface, pf = RichGrandChild.Iface, RichGrandChild.Processor
   elif plan['svc'] == 'richchild2':
     iface, pf = RichChild2.Iface, RichChild2.Processor
   else:
